@@ -217,6 +217,79 @@ def gen_lockfd(tier, rng):
         cases.append("fr%d %s" % (i, " ".join(steps)))
     return cases
 
+
+class LockMixSuite:
+    """both refinements at once: openers parked between opening and locking the LOCK file (I / L)
+    interleaved with a destroyer parked between its steps (E / F / H). There is no composed model:
+    only the property itself is judged, on the implementation's answers (never two handles open,
+    no step hangs or panics)"""
+    suite = "lockmix"
+
+    def __init__(self, cases):
+        self.cases = cases
+        self.stats = {"steps": 0}
+
+    def execute(self, workdir, tag="lx"):
+        impl = lib.run_sharded(lib.RVH, "lock", self.cases, workdir, tag + "i", extra_env={"RVH_CASE_TIMEOUT": "200"})
+        prop, corr = [], []
+        for c in self.cases:
+            cid = c.split(" ", 1)[0]
+            a = impl.get(cid, "").split(" ")[1:]
+            steps = c.split(" ")[1:]
+            bad = None
+            if len(a) != len(steps):
+                bad = "run failed: %s" % impl.get(cid, "")[:300]
+            else:
+                openh = set()
+                for i, (st, x) in enumerate(zip(steps, a)):
+                    self.stats["steps"] += 1
+                    if st[0] in "OL" and x == "ok":
+                        openh.add(st[1:])
+                    elif st[0] == "X" and x == "ok":
+                        openh.discard(st[1:])
+                    if len(openh) > 1:
+                        bad = "step %d %s: handles %s are open at the same time" % (i, st, sorted(openh))
+                        break
+            if bad:
+                prop.append({"case": c, "impl": impl.get(cid, "")[:600], "spec": "", "model": "", "detail": bad})
+        return corr, prop
+
+
+def gen_lockmix(tier, rng):
+    cases = ["mx0 Ia E F La H Ob", "mx1 Ia E F H Oc La", "mx2 Oz Xz Ia E Ib F La H Lb Oc"]
+    for i in range(30 if tier == "quick" else 1500):
+        steps = ["Oz", "Xz"] if rng.random() < 0.5 else []
+        pend, openh = [], []
+        fresh = iter("abcdefghijklmnopqrstuvwxy")
+        dphase = 0
+        for _ in range(rng.randrange(4, 11)):
+            r = rng.random()
+            if r < 0.25:
+                h = next(fresh)
+                steps.append("I" + h)
+                pend.append(h)
+            elif r < 0.45 and pend:
+                h = pend.pop(rng.randrange(len(pend)))
+                steps.append("L" + h)
+                openh.append(h)
+            elif r < 0.55:
+                h = next(fresh)
+                steps.append("O" + h)
+                openh.append(h)
+            elif r < 0.65 and openh:
+                steps.append("X" + openh.pop(rng.randrange(len(openh))))
+            elif dphase == 0:
+                steps.append("E")
+                dphase = 1
+            elif dphase == 1:
+                steps.append("F")
+                dphase = 2
+            else:
+                steps.append("H")
+                dphase = 0
+        cases.append("mr%d %s" % (i, " ".join(steps)))
+    return cases
+
 def gen_phased(tier, rng):
     import os
     cases = []
@@ -281,10 +354,13 @@ def suites(tier, seed, rng):
                       "k1 Oa Pa:x61=x01 Za Ob Gb:x61 Xb", "k2 Oa Za Za Ob Zb D",
                       "k3 Oa Ya Ob Xb", "k4 Oa Pa:x61=x01 Ya Ya Ob Gb:x61 Xb Oc Yc"] + gen_cases(tier, rng)),
             LockPhasesSuite(gen_phased(tier, rng)),
-            LockFdSuite(gen_lockfd(tier, rng))]
+            LockFdSuite(gen_lockfd(tier, rng)),
+            LockMixSuite(gen_lockmix(tier, rng))]
 
 
 def replay_suites(rp):
+    if rp.get("suite") == "lockmix":
+        return [LockMixSuite([rp["case"]])]
     if rp.get("suite") == "lockfd":
         return [LockFdSuite([rp["case"]])]
     if rp.get("suite") == "lockp":
@@ -293,6 +369,8 @@ def replay_suites(rp):
 
 
 def still_fails(suite, case, workdir):
+    if suite == "lockmix":
+        return bool(LockMixSuite([case]).execute(workdir, tag="sh")[1])
     if suite == "lockfd":
         return bool(LockFdSuite([case]).execute(workdir, tag="sh")[1])
     if suite == "lockp":
